@@ -31,8 +31,10 @@ ASSUMPTIONS = [
     'bipartite index convention (a,b) -> a*dB+b, A the left Kronecker factor; Gell-Mann normalisation Tr(Mi Mj)=2 delta_ij',
     'the Dicke basis ordering of PureBosonicExt is numqi.dicke.get_dicke_klist (used only to read the model coordinates; the '
     'embedding and the partial trace are the reference\'s own)',
-    'SDP/LP answers carry solver tolerance: orderings are asserted with 1e-4 absolute slack; SolverError / None / a solve the '
-    'solver itself flags "inaccurate" is inconclusive, never a violation',
+    'SDP/LP answers carry solver tolerance (cvxpy picks SCS with eps=1e-4 for these SDPs): orderings are asserted with 1e-4 absolute '
+    'slack; a pair that exceeds it is re-solved with the same numqi SDP at eps=1e-8 and is a violation only if the excess persists; '
+    'SolverError / None / a solve the solver itself flags "inaccurate" is inconclusive, never a violation; CHA LP feasible points are '
+    'compared at 1e-5 (LP feasibility tolerance)',
     'boundaries of the optimiser-driven get_boundary() methods of the inner models are not rigorous bounds and are not compared',
 ]
 TECHNIQUE = ('runtime contracts (postconditions) on the boundary functions with a reference eigensolver/bisection oracle, ghost '
@@ -64,7 +66,7 @@ def _kmax(dims, tier):
 def shards(tier, seed):
     """heavy shards first (the runner starts them in list order, 16 at a time). Budgets are CPU seconds."""
     q = tier == 'quick'
-    B = 120 if q else 900
+    B = 120 if q else 600
     ret = []
     plan = [  # dims, number of shards, directions per shard
         ((2, 4), 3, 7) if q else ((2, 4), 8, 8),
@@ -87,14 +89,18 @@ def shards(tier, seed):
         ret.append({'name': 'pureb-a', 'cfg': [[3, 3, 2], [2, 4, 2], [2, 2, 4], [2, 2, 2], [2, 3, 2]], 'nstate': 2, 'cpu_budget_s': B})
         ret.append({'name': 'thresholds', 'n': 60, 'certk': certk_q, 'cpu_budget_s': B})
     else:
+        # measured CPU (seed 0): pureb-33-k3 / pureb-24-k3 / cha-* 450-900 s (single feasibility solves of 100-1000 s on boundary states),
+        # nest-23-* 200-350 s, nest-24-* / nest-33-* 150-280 s, everything else < 120 s
+        heavy = [[3, 3, 3], [2, 4, 3], [2, 3, 4]]
+        for c in heavy:
+            ret.append({'name': f'pureb-{c[0]}{c[1]}-k{c[2]}', 'cfg': [c], 'nstate': 6, 'cpu_budget_s': B})
+        for i in range(3):
+            ret.append({'name': f'cha-{i}', 'ncha': 60, 'nmodel': 8, 'kmax22': 4, 'cpu_budget_s': B})
         ret += nest[:16]
-        cfgs = [[2, 3, 4], [2, 4, 3], [3, 3, 3], [2, 3, 3], [3, 2, 3], [2, 2, 5], [2, 2, 4], [2, 2, 3], [2, 2, 2], [2, 2, 1], [2, 3, 2], [3, 3, 2],
-                [2, 4, 2]]
+        cfgs = [[2, 3, 3], [3, 2, 3], [2, 2, 5], [2, 2, 4], [2, 2, 3], [2, 2, 2], [2, 2, 1], [2, 3, 2], [3, 3, 2], [2, 4, 2]]
         for c in cfgs:
             ret.append({'name': f'pureb-{c[0]}{c[1]}-k{c[2]}', 'cfg': [c], 'nstate': 6, 'cpu_budget_s': B})
         ret += nest[16:]
-        for i in range(3):
-            ret.append({'name': f'cha-{i}', 'ncha': 60, 'nmodel': 8, 'kmax22': 4, 'cpu_budget_s': B})
         ret.append({'name': 'certk-hook', 'certk': {'hook': [[2, 2], [3, 2], [3, 3], [4, 2]], 'sym': [], 'nsym': 0}, 'cpu_budget_s': B})
         for c in [[2, 3, 4], [3, 3, 3], [2, 3, 3], [2, 2, 4], [2, 4, 2], [2, 2, 3], [3, 3, 2], [2, 3, 2]]:
             ret.append({'name': f'certk-{c[0]}{c[1]}-k{c[2]}', 'certk': {'hook': [], 'sym': [c], 'nsym': 6}, 'cpu_budget_s': B})
@@ -123,11 +129,15 @@ class Mon:
         self.depth = 0           # >0 while inside get_ppt_boundary (its inner DM-boundary calls are not logged)
         self.margin = {}         # smallest |margin| seen at a threshold probe, by kind
         self.excess = {}         # ordering key -> worst (largest) b_inner - b_outer
+        self.excess_refined = {}  # same, after the failing pair was re-solved to 1e-8
         self.excess_flagged = {}  # same, for comparisons where the solver flagged one of the two solves as inaccurate
         self.separated = {}      # ordering key -> number of comparisons with a strict gap > 1e-3
         self.compared = {}       # ordering key -> number of comparisons
         self.last_cha_state = None
         self.last_state = None
+        self.rho_of_dir = {}     # (direction digest, d) -> first matrix seen with that direction (for high-accuracy re-solves)
+        self.refined = {}        # cache of high-accuracy re-solves
+        self.n_refined = 0
 
     def note_margin(self, kind, value):
         v = abs(float(value))
@@ -139,6 +149,7 @@ class Mon:
              'method': method, 'beta': float(beta), 'inacc': False}
         e.update(kw)
         self.log.append(e)
+        self.rho_of_dir.setdefault((e['dig'], e['d']), np.array(rho, dtype=np.complex128))
         return e
 
 
@@ -422,6 +433,38 @@ def install(ctx, numqi, mon):
 
     mon.judge_rejection = judge_rejection
 
+    def refined_boundary(rho, dims, k, use_ppt, use_boson):
+        """the same numqi SDP solved to 1e-8 instead of the default first-order tolerance (SCS eps=1e-4): used only to decide
+        whether an ordering that fails by more than the slack is solver tolerance or a property of the formulation."""
+        key = (content_digest(rho), tuple(dims), int(k), bool(use_ppt), bool(use_boson))
+        if key in mon.refined:
+            return mon.refined[key]
+        orig_solve = cvxpy.Problem.solve
+
+        def solve(self, *a, **kw):
+            if 'solver' not in kw:
+                kw = dict(kw, solver='SCS', eps=1e-8, max_iters=200000)
+            return orig_solve(self, *a, **kw)
+        f = ctx.orig(E.symext.get_ABk_symmetric_extension_boundary)
+        cvxpy.Problem.solve = solve
+        try:
+            with ctx.quiet(), warnings.catch_warnings(record=True) as w:
+                warnings.simplefilter('always')
+                try:
+                    r = f(rho, dims, k, use_ppt=use_ppt, use_boson=use_boson)
+                    r = None if (r is None or not np.all(np.isfinite(r))) else r
+                except SolverError:
+                    r = None
+            if r is not None and any('inaccurate' in str(x.message).lower() for x in w):
+                r = None
+        finally:
+            cvxpy.Problem.solve = orig_solve
+        mon.refined[key] = r
+        mon.n_refined += 1
+        return r
+
+    mon.refined_boundary = refined_boundary
+
     def post_is_symext(c):
         if c.exc is not None:
             return
@@ -582,17 +625,18 @@ def install(ctx, numqi, mon):
             ctx.check(ok, 'cha/info-shape', 'CHABoundaryBagging.solve(return_info=True) must return matching ketA, ketB, lambda', wit, point=point)
             if not ok:
                 return
-            ctx.check(lam.min() >= 0 and abs(lam.sum() - 1) <= 1e-6 and np.abs(np.linalg.norm(ketA, axis=1) - 1).max() <= 1e-8
+            # LP answer: the weights carry the LP solver's feasibility tolerance (observed |sum-1| up to 1.2e-6 after numqi drops lambda<=0)
+            ctx.check(lam.min() >= 0 and abs(lam.sum() - 1) <= 1e-5 and np.abs(np.linalg.norm(ketA, axis=1) - 1).max() <= 1e-8
                       and np.abs(np.linalg.norm(ketB, axis=1) - 1).max() <= 1e-8, 'cha/weights-not-on-simplex',
                       'CHA feasible point: weights must be >=0 and sum to 1, product vectors must be unit vectors',
                       lambda: dict(wit, lam_sum=float(lam.sum()), lam_min=float(lam.min())), point=point)
             sigma = R.product_mixture(lam, ketA, ketB)
             target = R.ray_point(dm, beta)
-            ok = ctx.check(np.abs(sigma - target).max() <= 1e-6, 'cha/feasible-point-not-on-ray',
+            ok = ctx.check(np.abs(sigma - target).max() <= 1e-5, 'cha/feasible-point-not-on-ray',
                            'CHA feasible point: sum_i lambda_i |a_i b_i><a_i b_i| differs from the state at distance beta on the ray of rho',
                            lambda: dict(wit, max_abs_err=float(np.abs(sigma - target).max())), point=point)
             t2 = np.asarray(E._misc.hf_interpolate_dm(dm, beta=beta))
-            ctx.check(t2.shape == sigma.shape and np.abs(sigma - t2).max() <= 1e-6, 'cha/feasible-point!=hf_interpolate_dm',
+            ctx.check(t2.shape == sigma.shape and np.abs(sigma - t2).max() <= 1e-5, 'cha/feasible-point!=hf_interpolate_dm',
                       'CHA feasible point differs from hf_interpolate_dm(rho, beta)', wit, point=point)
             m = R.ppt_margin(sigma, dA, dB)
             ctx.check(m >= -1e-9, 'inner-in-outer/cha-point-not-ppt', 'CHA feasible point (a product mixture) is not PPT by the reference eigensolver',
@@ -659,6 +703,17 @@ def _relation(e1, e2):
     return None
 
 
+def _refined_beta(mon, e, dig, d):
+    """beta of the event, re-solved to 1e-8 if it came from the k-extension SDP (other methods are returned as recorded)."""
+    if e['method'] != 'symext':
+        return e['beta']
+    rho = mon.rho_of_dir.get((dig, d))
+    if rho is None:
+        return None
+    r = mon.refined_boundary(rho, e['dims'], e['k'], e['ppt'], e['boson'])
+    return None if r is None else float(r)
+
+
 def check_nesting(ctx, mon):
     groups = {}
     for e in mon.log:
@@ -698,10 +753,27 @@ def check_nesting(ctx, mon):
                     ctx.inconclusive('nesting/solver-flagged-inaccurate')
                     ctx.hit('nesting/offline')
                     continue
+                wit = {'inner': _cfg_str(e1), 'outer': _cfg_str(e2), 'dims': e1['dims'] or e2['dims'], 'beta_inner': e1['beta'],
+                       'beta_outer': e2['beta'], 'excess': exc}
+                if exc > slack and 'symext' in (e1['method'], e2['method']):
+                    # the default SDP solve is a first-order method with eps=1e-4: decide with the same numqi SDP solved to 1e-8
+                    r1, r2 = _refined_beta(mon, e1, dig, d), _refined_beta(mon, e2, dig, d)
+                    if r1 is None or r2 is None:
+                        ctx.inconclusive('nesting/refinement-solver-failure')
+                        ctx.hit('nesting/offline')
+                        continue
+                    exc_r = r1 - r2
+                    wit.update({'beta_inner_resolved_1e-8': r1, 'beta_outer_resolved_1e-8': r2, 'excess_resolved': exc_r})
+                    if key not in mon.excess_refined or exc_r > mon.excess_refined[key]:
+                        mon.excess_refined[key] = exc_r
+                    if exc_r <= slack:
+                        ctx.inconclusive('nesting/excess-is-default-solver-tolerance(holds when re-solved to 1e-8)')
+                        ctx.hit('nesting/offline')
+                        continue
+                    exc = exc_r
                 ctx.set_case({'direction_digest': dig, 'inner': e1, 'outer': e2})
                 ctx.check(exc <= slack, key, f'{key}: boundary length of the smaller set exceeds that of the larger set along the same direction '
-                          f'by more than {slack:g}', {'inner': _cfg_str(e1), 'outer': _cfg_str(e2), 'dims': e1['dims'] or e2['dims'],
-                                                      'beta_inner': e1['beta'], 'beta_outer': e2['beta'], 'excess': exc}, point='nesting/offline')
+                          f'by more than {slack:g}', wit, point='nesting/offline')
         # definitional equalities of the first level of the hierarchy: 1-ext = all states, 1-ext + PPT = PPT states
         for e1 in evs:
             if e1['method'] != 'symext' or e1['k'] != 1:
@@ -720,13 +792,25 @@ def check_nesting(ctx, mon):
                 if gap > TOL_ORDER and e1['inacc']:
                     ctx.inconclusive('nesting/solver-flagged-inaccurate')
                     continue
+                wit = {'symext': _cfg_str(e1), 'other': e2['method'], 'dims': e1['dims'], 'beta_symext': e1['beta'], 'beta_other': e2['beta']}
+                if gap > TOL_ORDER:
+                    r1 = _refined_beta(mon, e1, dig, d)
+                    if r1 is None:
+                        ctx.inconclusive('nesting/refinement-solver-failure')
+                        continue
+                    wit['beta_symext_resolved_1e-8'] = r1
+                    if abs(r1 - e2['beta']) <= TOL_ORDER:
+                        ctx.inconclusive('nesting/excess-is-default-solver-tolerance(holds when re-solved to 1e-8)')
+                        continue
+                    gap = abs(r1 - e2['beta'])
                 ctx.set_case({'direction_digest': dig, 'inner': e1, 'outer': e2})
                 ctx.check(gap <= TOL_ORDER, key, 'the k=1 extension boundary must coincide with the state-space (resp. PPT) boundary up to 1e-4',
-                          {'symext': _cfg_str(e1), 'other': e2['method'], 'dims': e1['dims'], 'beta_symext': e1['beta'], 'beta_other': e2['beta']},
-                          point='nesting/offline')
+                          wit, point='nesting/offline')
     ctx.set_case(None)
     ctx.extra['nesting_worst_excess(inner-outer; <=slack required)'] = {k: float(v) for k, v in sorted(mon.excess.items())}
     ctx.extra['nesting_worst_excess_when_solver_flagged_inaccurate'] = {k: float(v) for k, v in sorted(mon.excess_flagged.items())}
+    ctx.extra['nesting_excess_after_1e-8_re-solve(only pairs that exceeded the slack)'] = {k: float(v) for k, v in sorted(mon.excess_refined.items())}
+    ctx.extra['sdp_re-solved_to_1e-8'] = mon.n_refined
     ctx.extra['nesting_comparisons'] = dict(sorted(mon.compared.items()))
     ctx.extra['nesting_strictly_separated(>1e-3)'] = dict(sorted(mon.separated.items()))
     ctx.extra['log_events'] = len(mon.log)
@@ -980,9 +1064,23 @@ def run_nest(ctx, numqi, mon, shard):
             for j in range(3):
                 rs = drv.boundary(mats[j], dims, k, False, boson)
                 if rs is not None and np.isfinite(rs) and np.isfinite(rb[j]):
-                    ctx.check(abs(float(rs) - float(rb[j])) <= 1e-5, 'symext_boundary/batched!=single',
-                              'batched get_ABk_symmetric_extension_boundary differs from the per-item call by more than 1e-5',
-                              {'dims': dims, 'k': k, 'boson': boson, 'index': j, 'batched': float(rb[j]), 'single': float(rs)}, point='threshold/batched')
+                    # both are default-tolerance (1e-4) solves of the same SDP: they may differ by twice that. Decide against the 1e-8 re-solve.
+                    gap = abs(float(rs) - float(rb[j]))
+                    wit = {'dims': dims, 'k': k, 'boson': boson, 'index': j, 'batched': float(rb[j]), 'single': float(rs)}
+                    if gap > 1e-5:
+                        rr = mon.refined_boundary(mats[j], dims, k, False, boson)
+                        if rr is None:
+                            ctx.inconclusive('nesting/refinement-solver-failure')
+                            continue
+                        wit['single_resolved_1e-8'] = float(rr)
+                        gap = abs(float(rb[j]) - float(rr))
+                        if gap <= TOL_ORDER and abs(float(rs) - float(rr)) <= TOL_ORDER:
+                            ctx.hit('threshold/batched')
+                            ctx.inconclusive('symext_boundary/batched-vs-single-within-default-solver-tolerance')
+                            continue
+                    ctx.check(gap <= TOL_ORDER, 'symext_boundary/batched!=single',
+                              'batched get_ABk_symmetric_extension_boundary differs from the per-item call (and from its 1e-8 re-solve) by more than 1e-4',
+                              wit, point='threshold/batched')
     ctx.extra['directions_done'] = done
 
 
